@@ -9,7 +9,6 @@ import (
 	"sort"
 	"strconv"
 	"strings"
-	"sync"
 
 	"golang.org/x/crypto/blake2b"
 	"golang.org/x/crypto/sha3"
@@ -259,22 +258,18 @@ func hexNibble(n *Term) *Term {
 	return Ite(lt, BinBV(OpAdd, n, BVC('0', 8)), BinBV(OpAdd, n, BVC('a'-10, 8)))
 }
 
-type hexOrig struct {
-	b  *Term
-	hi bool
-}
-
-// hexOrigin remembers which byte a symbolic hex character was produced from, so that
+// hex characters remember which symbolic byte they were produced from (Term.orig), so that
 // decode(encode(b)) folds back to b without going through the solver.
-var hexOrigin sync.Map // *Term -> hexOrig
 
 func hexOfBytes(bs []*Term) Str {
 	out := make([]*Term, 0, 2*len(bs))
 	for _, b := range bs {
 		h, l := hexNibble(BinBV(OpLShr, b, BVC(4, 8))), hexNibble(BinBV(OpAnd, b, BVC(15, 8)))
 		if !b.IsConst() {
-			hexOrigin.Store(h, hexOrig{b, true})
-			hexOrigin.Store(l, hexOrig{b, false})
+			if h.orig == nil && l.orig == nil {
+				h.orig, h.origHi = b, true
+				l.orig, l.origHi = b, false
+			}
 		}
 		out = append(out, h, l)
 	}
@@ -874,11 +869,9 @@ func init() {
 		out := make([]*Term, 0, len(bs)/2)
 		valid := TrueT
 		for i := 0; i < len(bs); i += 2 {
-			if oh, ok := hexOrigin.Load(bs[i]); ok {
-				if ol, ok := hexOrigin.Load(bs[i+1]); ok && oh.(hexOrig).hi && !ol.(hexOrig).hi && oh.(hexOrig).b == ol.(hexOrig).b {
-					out = append(out, oh.(hexOrig).b)
-					continue
-				}
+			if oh, ol := bs[i], bs[i+1]; oh.orig != nil && oh.orig == ol.orig && oh.origHi && !ol.origHi {
+				out = append(out, oh.orig)
+				continue
 			}
 			hv, ok1 := unhex(bs[i])
 			lv, ok2 := unhex(bs[i+1])
@@ -996,6 +989,18 @@ func init() {
 }
 
 func unhex(c *Term) (*Term, *Term) {
+	if c.IsConst() {
+		b := byte(c.Val)
+		switch {
+		case b >= '0' && b <= '9':
+			return BVC(uint64(b-'0'), 8), TrueT
+		case b >= 'a' && b <= 'f':
+			return BVC(uint64(b-'a'+10), 8), TrueT
+		case b >= 'A' && b <= 'F':
+			return BVC(uint64(b-'A'+10), 8), TrueT
+		}
+		return BVC(0, 8), FalseT
+	}
 	d := And(Cmp(OpUle, BVC('0', 8), c), Cmp(OpUle, c, BVC('9', 8)))
 	l := And(Cmp(OpUle, BVC('a', 8), c), Cmp(OpUle, c, BVC('f', 8)))
 	u := And(Cmp(OpUle, BVC('A', 8), c), Cmp(OpUle, c, BVC('F', 8)))
